@@ -963,17 +963,20 @@ class Entry:
     def __init__(self, princ, ca, ns, va, vb, key):
         self.princ, self.ca, self.ns, self.va, self.vb, self.key = princ, ca, ns, va, vb, key
 
-    def line(self, quote=True):
+    def line(self, quote=True, case=None):
+        """case: None = names as documented (lower case); else a function name -> spelling (option names are
+        case-insensitive, as in OpenSSH)"""
         q = '"' if quote else ''
+        nm = case or (lambda x: x)
         opts = []
         if self.ca:
-            opts.append('cert-authority')
+            opts.append(nm('cert-authority'))
         if self.ns is not None:
-            opts.append('namespaces="%s"' % ','.join(('!' if n else '') + p for n, p in self.ns))
+            opts.append(nm('namespaces') + '="%s"' % ','.join(('!' if n else '') + p for n, p in self.ns))
         if self.va is not None:
-            opts.append('valid-after=' + q + L.ts_string(self.va) + q)
+            opts.append(nm('valid-after') + '=' + q + L.ts_string(self.va) + q)
         if self.vb is not None:
-            opts.append('valid-before="%s"' % L.ts_string(self.vb))
+            opts.append(nm('valid-before') + '="%s"' % L.ts_string(self.vb))
         return ' '.join([','.join(('!' if n else '') + p for n, p in self.princ)] + ([','.join(opts)] if opts else []) +
                         [self.key.export_public_key().decode().strip()])
 
@@ -1179,8 +1182,18 @@ def _stage_sshsig(ctx, env, rng, thorough, a, tmp):
             eva = None if rng.random() < 0.7 else T0 + rng.choice([-100, 0, 100])
             evb = None if rng.random() < 0.7 else T0 + rng.choice([-100, 0, 1, 100])
             entries.append(Entry(pl, e_ca, nsl, eva, evb, ekey))
-        kg_text = ''.join(e.line() + '\n' for e in entries)
-        text = ''.join(e.line(rng.random() < 0.5) + '\n' for e in entries)
+        def spell(name):     # documented spelling, or any letter case
+            r_ = rng.random()
+            return name if r_ < 0.5 else name.upper() if r_ < 0.65 else name.title() if r_ < 0.8 else \
+                ''.join(c.upper() if rng.random() < 0.5 else c for c in name)
+        spellings = {}
+
+        def spell_once(name):
+            return spellings.setdefault(name, spell(name))
+        text = ''.join(e.line(rng.random() < 0.5, spell_once) + '\n' for e in entries)
+        kg_text = ''.join(e.line(True, spell_once) + '\n' for e in entries)
+        if any(v != k for k, v in spellings.items()):
+            ctx.count('sshsig.option_name_not_lower_case')
         if rng.random() < 0.1:
             text = '# comment\n\n' + text + 'bob ssh-ed25519 AAAAnotbase64!!\n'
         now = T0 + rng.choice([0, 0, -100, 100, -1, 1, 99, -101, -11, -10, 10, 9, 1000, 999, -1000, -1001])
@@ -1420,6 +1433,69 @@ def _stage_sshsig(ctx, env, rng, thorough, a, tmp):
                                           dict(kind='sshsig', msg=b'payload'.hex(), sig=raw.hex(), principal=ident, signers=line, now=None,
                                                is_hashed=False, expect='reject', signer='key', alteration='near_miss', oracle='ssh-keygen'))
     ctx.cov['oracle']['ssh_keygen_Y_near_miss_runs'] = kg_near
+
+    # targeted: option NAMES in every letter case (flags and name=value forms); names are case-insensitive
+    user_cert = env.ca.generate_user_certificate(env.user, 'optcase', principals=['alice'])
+    opt_cases = []
+    for sp in (str, str.upper, str.title, lambda x: x[:1].upper() + x[1:], lambda x: x[:-1] + x[-1:].upper(),
+               lambda x: ''.join(c.upper() if i % 2 else c for i, c in enumerate(x))):
+        plans = [
+            # (entry, signer key, certificate, namespace, now, expected accept)
+            (Entry([(False, 'alice')], True, None, None, None, env.ca), env.ca, None, 'file', T0, False),     # CA key signs directly
+            (Entry([(False, 'alice')], True, None, None, None, env.ca), env.user, user_cert, 'file', T0, True),
+            (Entry([(False, 'alice')], False, [(False, 'git')], None, None, env.user), env.user, None, 'file', T0, False),
+            (Entry([(False, 'alice')], False, [(False, 'file')], None, None, env.user), env.user, None, 'file', T0, True),
+            (Entry([(False, 'alice')], False, None, T0 + 100, None, env.user), env.user, None, 'file', T0, False),
+            (Entry([(False, 'alice')], False, None, T0 - 100, None, env.user), env.user, None, 'file', T0, True),
+            (Entry([(False, 'alice')], False, None, None, T0 - 100, env.user), env.user, None, 'file', T0, False),
+            (Entry([(False, 'alice')], False, None, None, T0 + 100, env.user), env.user, None, 'file', T0, True)]
+        for ent, skey, scert, nsname, now, expect in plans:
+            line = ent.line(True, sp) + '\n'
+            raw = env.sshsig_blob(skey, scert, b'payload', namespace=nsname)
+            with L.Recorder() as rec, L.clock(now):
+                try:
+                    ok = bool(a.validate_sshsig(b'payload', raw, 'alice', line.encode()))
+                    got = 0 if ok else 1
+                except ValueError:
+                    ok, got = False, 2
+            if rec.available and not rec.odd_exc:
+                dg = [(h.encode(), hashlib.new(h, b'payload').digest()) for h in ('sha256', 'sha512')]
+                t_cases.append('(%s, %s, %s, %s, %s, %s, %s, %s, %s, %s, %s)' % (
+                    zl(b'payload'), cbool(False), zl(raw), zs('alice'), clist([ent], lambda e: e.coq()), cz(now),
+                    coq_calls(rec.sig_calls), clist(rec.pub_ok, zl), clist(ADDRS_OK, zl),
+                    clist(dg, lambda d: '(%s, %s)' % (zl(d[0]), zl(d[1]))), cz(got)))
+            ctx.count('sshsig_option_case.' + ('accept' if ok else 'reject'))
+            ctx.note_case(('sshsig_optcase', line[:60], scert is not None, nsname), nontrivial=True)
+            if ok != expect:
+                ctx.failing_input(f'allowed-signers line {line.split(" ssh-")[0]!r} ...: signature by '
+                                  f'{"the CA key itself" if skey is env.ca else "a certificate of that CA" if scert else "the listed key"} '
+                                  f'{"validates" if ok else "is refused"} (option names are case-insensitive: this is '
+                                  f'{"a cert-authority line" if ent.ca else "a restricted plain-key line"})',
+                                  dict(kind='sshsig', msg=b'payload'.hex(), sig=raw.hex(), principal='alice', signers=line, now=now,
+                                       is_hashed=False, expect='accept' if expect else 'reject', signer='key', alteration='option_case'))
+            if L.KEYGEN:
+                arm = b'-----BEGIN SSH SIGNATURE-----\n' + base64.encodebytes(raw) + b'-----END SSH SIGNATURE-----\n'
+                kg = L.keygen_verify(tmp, b'payload', arm, line, 'alice', nsname, when=now)
+                if kg is not None and kg != ok:
+                    ctx.count('ssh_keygen_Y_disagreements.option_case', group='oracle')
+                    if ok and not kg:
+                        ctx.failing_input(f'asyncssh validates against {line.split(" ssh-")[0]!r}; ssh-keygen -Y verify refuses it',
+                                          dict(kind='sshsig', msg=b'payload'.hex(), sig=raw.hex(), principal='alice', signers=line,
+                                               now=now, is_hashed=False, expect='reject', signer='key', alteration='option_case',
+                                               oracle='ssh-keygen'))
+        # what the line parser files each spelling under
+        ecls = getattr(a.sshsig, 'SSHAllowedSignersEntry', None)
+        if ecls is not None:
+            for code, name in enumerate(['cert-authority', 'namespaces', 'valid-after', 'valid-before', 'verify-required']):
+                w = sp(name)
+                arg = w if code in (0, 4) else w + ('="file"' if code == 1 else '="20231114221320Z"')
+                try:
+                    opts = ecls('alice ' + arg + ' ' + upub).options
+                    hit = [c for c, n in enumerate(['cert-authority', 'namespaces', 'valid-after', 'valid-before']) if n in opts]
+                    opt_cases.append('(%s, %d)' % (zs(w), hit[0] if hit else 4))
+                except Exception:
+                    ctx.count('allowed_signers_entry_unavailable', group='oracle')
+    submit(ctx, 'as_option_names', 'chk_as_opt', opt_cases, 'list Z * Z', 400)
 
     # every way of supplying the message: bytes, str path, PurePath, FIFO fed in several bursts, empty, > 64 KiB, > 1 MiB.
     # The signed data depends only on the message bytes.
